@@ -49,6 +49,11 @@ CLAIMS = {
   text="Machine-checked proofs over a word-level model of parse_ansi_term_style, Display for Style and ansi_term's painting: non-colour words may stand anywhere (C12_canonical, C12_attribute_position_irrelevant), first colour = foreground and second = background (C12_two_colours), a third colour is rejected, the printed form parses back to the very same style (C12_display_roundtrip), and text painted with a style decodes in an independently written SGR interpreter to exactly that style and ends in the default rendition (C12_paint_exact, from ansi_strings_balanced). Tie: through the hook driver, Style::from_str / Display / paint are compared with the extracted model on all style strings of <= 3 tokens over a 22-token alphabet (error cases sampled), all 256 palette numbers in both slots, random #rrggbb, case/quoting variants, in 24-bit and 256-colour mode; painted bytes are also decoded by the independent Python terminal model; every style-typed option is run through the binary and the value reported by --show-config is supplied again (byte-identical rendering required).",
   note="Trusted: Coq kernel; the string-to-word lexer of the harness (lower-casing, splitting, quote trimming, colour-name table; the 24-bit->256 table and CSS names are table oracles taken from the implementation); hook driver. No axioms.",
   design="§6 C12"),
+ "C13": dict(
+  technique="Coq proof (precedence theorems over the model of gather_features / get_option_value, for every table of built-in features) + translator (built-in feature tables dumped from the binary, flag order and sorted iteration scanned from the source) + black-box --show-config correspondence",
+  text="Machine-checked proofs over the model of option resolution: a command-line value wins (C13_cli_wins); then the main [delta] section, where a GIT_CONFIG_PARAMETERS entry overrides the file (C13_main_section_beats_features, C13_env_parameter_overrides_file); then the features scanned from the highest priority, a custom [delta \"name\"] section before the built-in default of the same name (C13_highest_priority_feature_wins, C13_custom_section_beats_builtin); then the default (C13_default_last); --no-gitconfig gives the result for the empty gitconfig (C13_no_gitconfig_ignores). Tie: the built-in feature tables are dumped from the hook-enabled binary and the order of command-line flags / the sorted flag iteration are scanned from src/options/set.rs on every run (GenFeatures.v, C13_code_structure); `delta --show-config` with a generated gitconfig (--config), args, DELTA_FEATURES (with/without '+') and GIT_CONFIG_PARAMETERS is compared with the extracted model for five probe options (string, optional string, two integers, boolean), each point repeated 3 times for determinism; an independent oracle checks the unambiguous ranks.",
+  note="Trusted: Coq kernel; translator; harness (gitconfig writer, show-config parser, format_option_value mirror); clap's own parsing; fuel 40 for feature gathering in the extracted model (termination for every feature graph is argued in DESIGN, not yet a theorem). No axioms.",
+  design="§6 C13"),
  "C14": dict(
   technique="Coq proof (path extraction for every path, fragment passed on unchanged, one hunk-header item per hunk from any state) + black-box header-event oracle with reserved styles",
   text="Machine-checked proofs: the path taken from `diff --git x/P y/P`, `--- x/P`, `+++ y/P` is P for every path P not ending in a tab and any mnemonic prefixes (C14_diff_line_path, C14_marker_line_path); the fragment of a hunk header is exactly the text after the closing @@ (C14_fragment_unchanged); every hunk gets exactly one hunk-header item directly before its first line, from any state (C14_one_hunk_header); a computed example covers rename+modify, mode-only, binary and deleted sections. On the real binary, header rows are recognised by reserved styles and the decoded sequence of file-header / hunk-header events must equal the sequence computed from the diff AST: all section kinds x path shapes x labels/arrow x modes, multi-commit logs ending in hunk-less sections, plain diff -u / -ru streams.",
